@@ -223,6 +223,9 @@ def callset_program(rng, seed):
         if '{p}' in al:
             d['resolver'] = 0
         decls.append(d)
+    if rng.random() < 0.25:
+        for d in decls:
+            d['consumes_args'] = True      # the input mutates the list / dict arguments it is handed
     nkw = rng.randrange(0, nparams + 1) if rng.random() < 0.4 else 0
     calls = []
     pool = rng.sample(NEAR, rng.randrange(4, 10))
@@ -232,8 +235,9 @@ def callset_program(rng, seed):
         calls.append((d['name'], vals))
     body = []
     for i, (dn, vals) in enumerate(calls):
-        args = [{'lit': v} for v in vals[:nparams - nkw]]
-        kwargs = {'p%d' % j: {'lit': vals[j]} for j in range(nparams - nkw, nparams)}
+        cp = bool(decls[0].get('consumes_args'))
+        args = [{'lit': v, 'copy_per_call': True} if cp else {'lit': v} for v in vals[:nparams - nkw]]
+        kwargs = {'p%d' % j: ({'lit': vals[j], 'copy_per_call': True} if cp else {'lit': vals[j]}) for j in range(nparams - nkw, nparams)}
         body.append({'op': 'try', 'body': [{'op': 'in', 'decl': dn, 'args': args, 'kwargs': kwargs, 'var': 'c%d' % i}]})
     return {'seed_world': seed, 'class_level': False, 'extractor': None, 'params': None, 'opts': {'raise_rate': 0.05}, 'inputs': decls, 'outputs': [],
             'body': body, 'uid': 930000 + seed % 50000, 'pool': pool}
